@@ -15,10 +15,11 @@ open Spydr.Edif
 theorem readS_flatten (e : SExp) (r : List Tok) : readS (flattenS e ++ r) = some (e, r) :=
   Spydr.Edif.readS_flatten e r
 
-example : readS (lexE "(edif n (net (rename a_3_ \"a[3]\") (joined)))) trailing".toList) =
-    some (.list [.atom "edif".toList, .atom "n".toList,
-      .list [.atom "net".toList, .list [.atom "rename".toList, .atom "a_3_".toList, .atom "\"a[3]\"".toList],
-        .list [.atom "joined".toList]]], [Tok.rp, Tok.atom "trailing".toList]) := by rfl
+example : (match readS (lexE "(edif n (net (rename a_3_ \"a[3]\") (joined)))) trailing".toList) with
+    | some (e, rest) => e.beq (.list [.atom "edif".toList, .atom "n".toList,
+        .list [.atom "net".toList, .list [.atom "rename".toList, .atom "a_3_".toList, .atom "\"a[3]\"".toList],
+          .list [.atom "joined".toList]]]) && rest == [Tok.rp, Tok.atom "trailing".toList]
+    | none => false) = true := by decide
 
 /-- **multibit_merge** — C05's central sentence.  Any cable (base index, wires); any sub-list of
     its bit nets; any order of them: folding multibit_add_cable's merge step yields ONE bus in
